@@ -138,6 +138,18 @@ CHECKS = {
   ref="DESIGN.md §3 C04",
   note=NOTE_COMMON + " Self-consistent leniencies of the library (reserved flag bits, trailing bytes, ...) are modelled as they are and listed in DESIGN.md.",
   technique="Coq proofs about a total reference decoder (canonicity of accepted integers/fields) + catch_unwind monitor on exhaustive and mutated inputs + differential correspondence"),
+ "C01": dict(
+  text="PARTIAL. Decided on pairs of REAL objects: a Client and a Server GenericConnection wired by two byte queues under seeded workloads from both "
+       "sides, arbitrary delivery interleaving and fragmentation, and transport losses at arbitrary points (incl. mid-frame) with persistent-"
+       "session resumption; the monitor requires no panic and no error event on either side, that the exchange comes to rest, QoS2 exactly once / "
+       "QoS1 at least once (exactly once without loss) / QoS0 at most once with the original topic and payload, and at rest all identifiers "
+       "free, stores empty, full vacancy on both sides; both objects are tied to the model by the full-digest correspondence. Coq theorems "
+       "(Closed under the global context) are the per-endpoint facts the pair property rests on, for all states: fragmentation independence "
+       "(C09), a transport loss leaves nothing of the cut connection behind and keeps a persistent session (C10), unmatched acknowledgements "
+       "are protocol errors (C06). A theorem about the two-endpoint system (pair invariant + termination measure) is NOT proved.",
+  ref="DESIGN.md §3 C01",
+  note=CONN_NOTE + " C01 replays re-run the seeded scheduler of the case on the current implementation (no shrinking).",
+  technique="system-level monitor on pairs of implementation objects + full-digest correspondence with the Coq model + per-endpoint Coq theorems (no pair-level theorem)"),
  "C12": dict(
   text="Coq theorems, Closed under the global context, for every state and every M: the vacancy getter is M minus the counter saturating at "
        "zero (never wraps or panics); a QoS>0 PUBLISH arriving when the peer already has the announced maximum outstanding is answered "
